@@ -100,6 +100,7 @@ PROPS["C17"] = {
 PROPS["C04"] = {
     "title": "Curve-line and line-line intersections agree with the exact root set",
     "gen_modules": ["Consts", "Basis", "Lines", "CurveLine"],
+    "props_modules": ["C04", "C04Clip"],
     "corr_n": (20000, 400000),
     "search_n": (20000, 400000),
     "technique": "Lean 4 theorems over definitions translated from the Rust source on every run (line/line uniqueness, curve/line soundness and conditional completeness) + XQ/Float correspondence + search",
@@ -107,10 +108,10 @@ PROPS["C04"] = {
                   "stated parameter ranges (non-zero divisor), and - with IEEE division modelled by XQ - return None for a zero divisor (parallel/collinear). curve_intersects_ray is translated whole "
                   "(loop included): it is proved equal to filterMap of a per-root function over the solver's roots; every hit has t in [0,1], is the curve point at t, and an unsnapped exact root lies on "
                   "the line at exactly s; curve_intersects_line is the filter 0<=s<=1; every root of the signed-distance cubic in [0,1] is reported given the solver contract; polish_root never increases "
-                  "the residual and fixes exact roots; the solver dispatch is characterised. The distance cubic is proved to be the signed distance of the curve point.",
+                  "the residual and fixes exact roots; the solver dispatch is characterised. The distance cubic is proved to be the signed distance of the curve point. A root the solver places outside (-0.1, 1.1) is dropped before refinement (repair ca41cec; the theorems are about the repaired loop). line_clip_to_bounds (Props/C04Clip, about the literal hand model of the Liang-Barsky loop): clip_some_spec - a returned segment is (P(t1), P(t2)) with 0 <= t1 <= t2 <= 1, and a point P(t), 0 <= t <= 1, of the line lies in the box EXACTLY when t1 <= t <= t2 (the maximal sub-segment inside the box, for corner points in any order, zero-length lines and axis-parallel lines included); clip_none_spec - None means no point of the line is in the box; clipStep_means - one iteration of the edge loop keeps the meaning of (t1, t2).",
     "level_note": "The external solvers (crate roots) are a parameter: completeness is conditional on 'returns every real root'; for a small non-zero leading coefficient the code solves a quadratic and "
-                  "refines - an approximation covered only by the search (sign-change scan, 1e-6 / 0.001 tolerances). line_clip_to_bounds is a hand model checked exhaustively on an integer grid "
-                  "(no Liang-Barsky theorem yet). sqrt is an uninterpreted function in the theorems. " + COMMON_NOTE,
+                  "refines - an approximation covered only by the search (sign-change scan, 1e-6 / 0.001 tolerances). line_clip_to_bounds is a literal hand model (loop with early return over zipped arrays) tied by the exhaustive integer grid and the random correspondence; "
+                  "the Liang-Barsky theorems of Props/C04Clip are about that model. sqrt is an uninterpreted function in the theorems. " + COMMON_NOTE,
     "rule": "corr: line pairs (dyadic integer grid and reals; parallel, collinear, shared end, T-junction, point line forced in), clip, line coefficients, and curve/line (hook H3 hands over the polynomial the implementation "
             "gave to the external solver and the raw roots it got back inside the same call: the generated function must have computed the same polynomial and must reproduce every hit - parameter, "
             "line position, point - bit for bit in Float). search: exhaustive integer grids for the three line functions and line_clip_to_bounds "
